@@ -82,6 +82,27 @@ CHECKS = {
         "on generated statistics files vs the extracted model.",
    note="c11_boring_t_sound is _partial (the CDF step is a numeric per-run check; scipy CDFs not modelled); c11_tables_transpose is C13's. Known findings F8, F16, F17.",
    technique=TECH, ref="DESIGN.md section 7 C11"),
+ 'C10': dict(
+   text="23 theorems over unbounded trees about a model of validate_taxonomy_tree, get_taxonomy_tree, get_child_to_parent, convert_tree_to_leaves, get_all_leaf_pairs, _drop_level, "
+        "flatten, to_str(drop_cells) and backfill_assignments: c10_validate_sound / _exact / _complete / c10_mutants_rejected (the validator accepts exactly the strict trees and "
+        "rejects every one-edit mutant class), c10_from_labels_exact, c10_parent_child_inverse, c10_leaves_partition, c10_leaves_by_ancestor, c10_leaf_pairs_exact (under "
+        "repetition-free child lists) with c10_leaf_pairs_refuted / c10_leaves_partition_refuted / c10_dup_child_accepted / c10_validator_gaps / c10_drop_leaf_refuted (finding F3), "
+        "c10_drop_preserves, c10_drop_errors, c10_drop_many_preserves, c10_drop_keeps_leaf_lists, c10_drop_leaf_preserves, c10_flatten_preserves, c10_roundtrip_preserves, "
+        "c10_backfill_spec, c10_backfill_fills. Tie: every tree shape with <= 4 levels and <= 5 (quick) / 6 (thorough) leaves in canonical and shuffled variants, random larger trees, "
+        "one-edit mutants, label tables (also through from_h5ad), random drop sequences and backfill records, through every public TaxonomyTree method vs the extracted model.",
+   note="Leaf-partition and leaf-pair statements are proved under repetition-free child lists, which the unchanged validator does not enforce (F3, known finding, _refuted witnesses); "
+        "from_data_release / from_precomputed_stats / from_json_file constructors not exercised; level names distinct and not reserved keys.",
+   technique=TECH, ref="DESIGN.md section 7 C10"),
+ 'C12': dict(
+   text="17 theorems about the model of _run_selection, for every legal choice sequence (the tie order of argsort is an input): c12_invariant (+ _initially, _preserved), "
+        "c12_filled_monotone, c12_terminates (<= n_genes+1 passes), c12_progress, c12_terminates_fuel, c12_no_duplicates, c12_only_useful_genes, c12_nothing_to_discriminate, "
+        "c12_coverage (every pair gets >= min(2n, available) selected markers, under 'no gene marks a pair both ways'), c12_hypothesis_checkable, c12_spec_holds, "
+        "c12_pair_order_irrelevant, c12_greedy_order_irrelevant, c12_behemoth_order_is_permutation, c12_thinning_sound. Tie: trace refinement — the gene sequence returned by "
+        "select_marker_genes_v2 / _run_selection is replayed through the model (every step legal, finished exactly at the end; mutilated sequences must be rejected) and census, "
+        "final utility array and statistics compared; select_all_markers / create_marker_gene_lookup_from_ref_list over workers 1..4 x behemoth cut-offs {0,1,1e9}; independent census.",
+   note="genes_at_a_time = 1 only; np.argsort tie order is an input (trace replay); the coverage theorem's hypothesis (no gene both ways) is checked on every generated table and shown "
+        "necessary by an Example; several reference files, parent_list and drop_level not exercised.",
+   technique="Coq proof of hand-written Gallina model + trace-refinement correspondence check (choice sequences of the real code replayed through the extracted model)", ref="DESIGN.md section 7 C12"),
  'C13': dict(
    text="Theorems: c13_count_pass (chunk-size independence), c13_transpose_exact (the Gallina model of transpose_sparse_matrix_on_disk — count pass, block loop with fuel, "
         "load chunks, next-free-slot table — equals the abstract transpose for every well-formed input, slice, elements_at_a_time and chunk sizes >= 1: monotone pointer array "
